@@ -4,7 +4,9 @@ case = {"n": ranks, "d": leaf default, "tree": tree literal, "ops": [op...]}
 op   = ["getref", pt, w] | ["get", pt] | ["append", path, c, v] | ["setitem", path, pos, oc, ov]
      | ["clear", path] | ["updcoords", path, depth, sg, k] | ["updpay", path, depth, k]
      | ["shaperef", path, lo, hi, step] | ["getpos", path, c, spk] | ["getposref", path, c, spk]
-     | ["getsp", path, c, spk] | ["getrefsp", path, c, spk, w]
+     | ["getsp", path, c, spk] | ["getrefsp", path, c, spk, w] | ["getd", pt, dflt]
+     | ["appendfib", path, c, tree] | ["extend", path, tree] | ["setitemfib", path, pos, tree]
+     | ["assignfib", path, tree]      (fiber-valued mutators; the argument fiber is a tree literal)
 w    = ["none"] | ["assign", v] | ["add", v];  spk = None or a seed k (start_pos = k mod len)
 observation = [state0, [[outcome, state] per op]]; state = [tree, rank paths, owners_ok]
 """
@@ -55,6 +57,14 @@ def op_coq(o):
         return "(OGetSP %s %s %s)" % (L.zlist(o[1]), L.z(o[2]), sp_coq(o[3]))
     if k == "getrefsp":
         return "(OGetRefSP %s %s %s %s)" % (L.zlist(o[1]), L.z(o[2]), sp_coq(o[3]), w_coq(o[4]))
+    if k == "appendfib":
+        return "(OAppendFib %s %s %s)" % (L.zlist(o[1]), L.z(o[2]), L.tree(o[3]))
+    if k == "extend":
+        return "(OExtend %s %s)" % (L.zlist(o[1]), L.tree(o[2]))
+    if k == "setitemfib":
+        return "(OSetItemFib %s %s %s)" % (L.zlist(o[1]), L.z(o[2]), L.tree(o[3]))
+    if k == "assignfib":
+        return "(OAssignFib %s %s)" % (L.zlist(o[1]), L.tree(o[2]))
     raise ValueError(k)
 
 
@@ -145,11 +155,70 @@ def gen_case(rng, kinds, maxlen=10, depths=(1, 2, 2, 3)):
         elif k == "getrefsp":
             w = gen_w(rng, d) if len(path) == n - 1 else ["none"]
             ops.append([k, path, coord(), rng.choice([None, None, 0, 1, 2, 3, 5]), w])
+        elif k in ("appendfib", "setitemfib"):
+            # an interior fiber gets a fiber payload of the matching depth (now and then a wrong one)
+            if len(path) + 1 >= n and rng.random() < 0.9:
+                path = path[:max(0, n - 2)]
+            dep = n - len(path) - 1
+            if rng.random() < 0.06:
+                dep = max(0, dep + rng.choice([-1, 1]))
+            t = gen_arg(rng, dep, d)
+            if k == "appendfib":
+                c = rng.choice([rng.randint(0, 14), rng.randint(8, 20)])
+                ops.append([k, path, c, t])
+                if len(path) + 1 < n and path + [c] not in paths:
+                    paths.append(path + [c])
+            else:
+                ops.append([k, path, rng.choice([0, 0, 1, 1, 2, 3, -1, -1, -2, -4, 6]), t])
+        elif k in ("extend", "assignfib"):
+            dep = n - len(path)
+            if rng.random() < 0.06:
+                dep = max(1, dep + rng.choice([-1, 1]))
+            t = gen_arg(rng, dep, d, lo=rng.choice([0, 0, 5, 9]) if k == "extend" else 0)
+            ops.append([k, path, t])
     return {"n": n, "d": d, "tree": tree, "ops": ops}
 
 
+def gen_arg(rng, depth, d, lo=0):
+    """tree literal for an argument fiber of `depth` ranks (depth 0: a leaf value); coordinates start at lo"""
+    if depth <= 0:
+        return rng.choice([d, 1, 3, 8])
+    shapes = [rng.randint(1, 5) for _ in range(depth)]
+    t = U.gen_fiber(rng, depth, shapes, d)
+    t = [[c + lo, s] for c, s in t]
+    if rng.random() < 0.04 and len(t) >= 2:          # not strictly increasing: outside the guard
+        t[0], t[1] = t[1], t[0]
+    return t
+
+
+def plain_wf(k, t):
+    """the model's guard plain_wf: uniform depth k, strictly increasing coordinates"""
+    if isinstance(t, int):
+        return k == 0
+    if k == 0:
+        return False
+    cs = [c for c, _ in t]
+    return all(a < b for a, b in zip(cs, cs[1:])) and all(plain_wf(k - 1, s) for _, s in t)
+
+
+def build_arg(t, depth, d):
+    """argument fiber (unowned) of `depth` ranks from a literal: leaf rank default d, interior default Fiber
+    (an unowned fiber otherwise guesses its default from its first payload, and <<= copies that guess
+    into the owning rank)"""
+    from fibertree import Fiber
+    coords = [c for c, _ in t]
+    if depth == 1:
+        f = Fiber(coords, [s for _, s in t]) if coords else Fiber([], [])
+        f._setDefault(d)
+    else:
+        f = Fiber(coords, [build_arg(s, depth - 1, d) for _, s in t]) if coords else Fiber([], [])
+        f._setDefault(Fiber)
+    return f
+
+
 ALL_KINDS = ["getref", "getref", "get", "getd", "append", "setitem", "setitem", "clear", "updcoords", "updtbl", "updtbl", "updpay",
-             "shaperef", "getpos", "getposref", "getsp", "getrefsp"]
+             "shaperef", "getpos", "getposref", "getsp", "getrefsp",
+             "appendfib", "appendfib", "extend", "extend", "setitemfib", "setitemfib", "assignfib", "assignfib"]
 ACCESS_KINDS = ["getref", "getref", "getref", "get", "get", "getd", "getd", "getpos", "getposref", "getsp", "getrefsp"]
 
 
@@ -262,7 +331,7 @@ def ref_guard(f, c, sp):
     return e1 or (c not in cs)
 
 
-def do_op(T, n, o):
+def do_op(T, n, o, d=0):
     """returns the outcome observation"""
     from fibertree import CoordPayload
     root = T.getRoot()
@@ -287,6 +356,26 @@ def do_op(T, n, o):
         return [0, pay_obs(T.getPayload(*pt, default=o[2], allocate=False))]
     path = o[1]
     f = resolve(root, path)
+    if k in ("appendfib", "setitemfib"):
+        t = o[3]
+        dep = n - len(path) - 1
+        if not (len(path) + 1 < n and plain_wf(dep, t)) or f is None:
+            return [2]
+        if k == "appendfib":
+            f.append(o[2], build_arg(t, dep, d))
+        else:
+            f[o[2]] = build_arg(t, dep, d)
+        return [0, []]
+    if k in ("extend", "assignfib"):
+        t = o[2]
+        dep = n - len(path)
+        if isinstance(t, int) or not (len(path) < n and plain_wf(dep, t)) or f is None:
+            return [2]
+        if k == "extend":
+            f.extend(build_arg(t, dep, d))
+        else:
+            f <<= build_arg(t, dep, d)
+        return [0, []]
     if k == "append":
         if len(path) + 1 != n or f is None:
             return [2]
@@ -371,7 +460,7 @@ def run_impl(case):
     steps = []
     for o in case["ops"]:
         try:
-            oc = do_op(T, n, o)
+            oc = do_op(T, n, o, case["d"])
         except (AssertionError, CoordinateError, IndexError):
             oc = [1]
         except Exception as e:
